@@ -8,7 +8,7 @@ from ..core import rule, VERIF
 from ..index import AnalysisError, dotted, src, walk_no_nested, names_in
 from ..consteval import Evaluator, Unfoldable, TOP, fold
 from ..objeval import ObjInterpreter, Obj, Opaque
-from ..util import arg, src_canon
+from ..util import arg, src_canon, returned_names
 from .slots import LOADER, BASEDEMUX, DEMUXMODS, P
 
 MD = P + 'modularDemultiplexer/'
@@ -297,24 +297,60 @@ def r4(ctx):
                  ('' if ok else f' - expected the .{field} cut with exactly {sorted(want)}'),
                  key=f'role-consistency:{name}', what=f'UmiBarcodeDemuxMethod: {name} is not the {role} stretch of the read')
     ctx.need('C02-R4', n, 4, 'role sinks (whitelist lookup, bc, RX, RQ) in UmiBarcodeDemuxMethod.demultiplex')
-    # emitted stretch: for IDX, (REC, TR) in enumerate(zip(records, tagged)): TR.sequence = REC.sequence[self.sequenceCapture[IDX]] (and qualities)
+    # emitted stretch: in the loop over the mates, TR.sequence = REC.sequence[self.sequenceCapture[IDX]] (and qualities), where REC / TR are the
+    # IDX-th input record and the IDX-th tagged record - written as enumerate(zip(..)), as an index loop, or with explicit subscripts
     ok = False
     cap = []
+    recs = f.args.args[1].arg
+    tagged = {x for t_ in returned_names(f) for x in t_}
+
+    class Canon(ast.NodeTransformer):
+        def __init__(self, m, idx):
+            self.m, self.idx = m, idx
+
+        def visit_Subscript(self, node):
+            self.generic_visit(node)
+            if isinstance(node.value, ast.Name) and isinstance(node.slice, ast.Name) and node.slice.id == 'IDX':
+                if node.value.id == recs:
+                    return ast.Name(id='REC', ctx=ast.Load())
+                if node.value.id in tagged:
+                    return ast.Name(id='TR', ctx=ast.Load())
+            return node
+
+        def visit_Name(self, node):
+            if node.id in self.m:
+                return ast.Name(id=self.m[node.id], ctx=node.ctx)
+            return node
+    import copy as _copy
     for l in walk_no_nested(f):
-        if isinstance(l, ast.For) and isinstance(l.iter, ast.Call) and dotted(l.iter.func) == 'enumerate' and l.iter.args and isinstance(l.iter.args[0], ast.Call) \
+        if not isinstance(l, ast.For):
+            continue
+        m = {}
+        if isinstance(l.iter, ast.Call) and dotted(l.iter.func) == 'enumerate' and l.iter.args and isinstance(l.iter.args[0], ast.Call) \
                 and dotted(l.iter.args[0].func) == 'zip' and isinstance(l.target, ast.Tuple) and len(l.target.elts) == 2 and isinstance(l.target.elts[0], ast.Name) \
                 and isinstance(l.target.elts[1], ast.Tuple) and len(l.target.elts[1].elts) == 2 and all(isinstance(x, ast.Name) for x in l.target.elts[1].elts):
-            zargs = [src(a) for a in l.iter.args[0].args]
-            recs = f.args.args[1].arg
-            if len(zargs) != 2 or recs not in zargs:
+            zargs = [src(a_) for a_ in l.iter.args[0].args]
+            if len(zargs) != 2 or recs not in zargs or not (set(zargs) & tagged):
                 continue
             pos = zargs.index(recs)
             m = {l.target.elts[0].id: 'IDX', l.target.elts[1].elts[pos].id: 'REC', l.target.elts[1].elts[1 - pos].id: 'TR'}
-            got = {}
-            for a in l.body:
-                if isinstance(a, ast.Assign) and len(a.targets) == 1:
-                    got[src_canon(a.targets[0], m)] = src_canon(a.value, m)
-                    cap.append(a)
+        elif isinstance(l.iter, ast.Call) and dotted(l.iter.func) == 'range' and isinstance(l.target, ast.Name) and recs in names_in(l.iter):
+            m = {l.target.id: 'IDX'}
+        else:
+            continue
+        got = {}
+        for a_ in l.body:
+            if isinstance(a_, ast.Assign) and len(a_.targets) == 1:
+                tg, val = a_.targets[0], a_.value
+                pairs = list(zip(tg.elts, val.elts)) if isinstance(tg, ast.Tuple) and isinstance(val, ast.Tuple) and len(tg.elts) == len(val.elts) else [(tg, val)]
+                for t1, v1 in pairs:
+                    cv = Canon(m, None).visit(_copy.deepcopy(v1))
+                    if isinstance(t1, ast.Name) and isinstance(cv, ast.Name) and cv.id in ('REC', 'TR'):
+                        m[t1.id] = cv.id          # a local alias of the IDX-th record
+                        continue
+                    got[src(Canon(m, None).visit(_copy.deepcopy(t1)))] = src(cv)
+                    cap.append(a_)
+        if 'TR.sequence' in got or 'TR.qualities' in got:
             ok = got.get('TR.sequence') == 'REC.sequence[self.sequenceCapture[IDX]]' and got.get('TR.qualities') == 'REC.qual[self.sequenceCapture[IDX]]'
     ctx.emit('C02-R4', ok, BASEDEMUX, cap[0] if cap else f, 'emitted sequence and qualities are the capture slice of the same mate (position in the zip of records and tagged records)', key='capture-same-mate')
     init = ctx.fn(BASEDEMUX, 'UmiBarcodeDemuxMethod.__init__')
